@@ -316,7 +316,7 @@ func cmdConc(prop string, args []string) int {
 	}
 	stdPermTbl = map[string][]string{"client1": {"Wallet 1"}}
 	rng := NewPRNG(cf.seed)
-	rounds, maxReq := 25, 8
+	rounds, maxReq := 150, 10
 	if cf.tier == "thorough" {
 		rounds, maxReq = 300, 24
 	}
